@@ -46,7 +46,8 @@ type caseCfg struct {
 	SlowUs, Gosched              int
 	DirectBFD                    int // goroutines calling bfdSend.Send directly
 	Retained                     bool
-	GateConn                     int // connection whose sender is blocked for a while (-1: none)
+	HotStop                      bool // Shutdown while the processor queues are full
+	GateConn                     int  // connection whose sender is blocked for a while (-1: none)
 }
 
 type caseOut struct {
@@ -139,6 +140,7 @@ func genCfg(r *vgen.Rand, i int) caseCfg {
 	}
 	c.DirectBFD = vgen.Pick(r, 0, 0, 1, 2)
 	c.Retained = c.Batch >= 3 && r.Chance(1, 2)
+	c.HotStop = !c.Retained && r.Chance(1, 2)
 	if c.Profile == "bfd" {
 		c.BFD = true
 	}
@@ -460,12 +462,58 @@ func runCase(cfg caseCfg, r *vgen.Rand) (out caseOut) {
 			return len(ls) == 2 || time.Since(t0) < 800*time.Millisecond
 		})
 	}
+	if cfg.HotStop {
+		// Stop the router while it is busy: a burst that overflows the processor queues, then
+		// Shutdown at once. Only packets that the processors discard: anything that is forwarded
+		// or answered after udpConnection.stop closed the send queues panics (send on closed
+		// channel). What is still queued when the processors see the cleared flag stays queued
+		// (owner: the queue) and is found by the final inspection.
+		burst := 4 * cfg.Procs * max(len(live)*cfg.Batch/cfg.Procs, cfg.Batch)
+		for k := 0; k < burst; k++ {
+			ci, src := pickExt(r, cfg.Reuse)
+			conns[ci].in <- dgram{discardPkt(r), src}
+		}
+		switch r.Intn(3) {
+		case 0:
+			runtime.Gosched()
+		case 1:
+			time.Sleep(time.Duration(r.Intn(300)) * time.Microsecond)
+		}
+		out.Stats["hot_stop"] = 1
+	}
 	done := make(chan struct{})
 	go func() { dp.Shutdown(); close(done) }()
 	select {
 	case <-done:
 	case <-time.After(5 * time.Second):
 		out.Hung = true
+	}
+
+	// After the stop: a processor that passed its loop check before the flag was cleared still
+	// sits on its queue and takes whatever arrives there; a slow-path processor likewise takes
+	// what a processor hands over after the stop. Whatever is dequeued must still be returned.
+	// One packet per processor queue, in the role of a receive loop that delivered late: the
+	// first NumSlowPathProcessors get a packet that goes to the slow path and is dropped there,
+	// the others one that the processor discards. (A processor that already left keeps it queued.)
+	if !out.Hung {
+		for i := 0; i < cfg.Procs; i++ {
+			raw := discardPkt(r)
+			if i < cfg.Slow {
+				raw = slowDropPkt()
+			}
+			pkt := dp.VerifPoolInject(raw, 1)
+			if udpip.VerifPoolEnqueueProc(dp.Underlay(), i, pkt) {
+				out.Stats["injected_after_stop"]++
+			} else {
+				dp.VerifPoolReturn(pkt)
+			}
+		}
+		if !waitFor(3*time.Second, func() bool {
+			time.Sleep(300 * time.Microsecond)
+			return routerIdle()
+		}) {
+			out.Stats["not_quiescent"] = 1
+		}
 	}
 	cancel()
 
@@ -676,7 +724,9 @@ func main() {
 		"with fake sockets: seeded configuration (batch 1-8, 1-3 processors, 1-2 slow-path " +
 		"processors, GOMAXPROCS 1-8, shared or own sibling socket, BFD on/off), 40-120 datagrams of " +
 		"21 kinds under 7 traffic profiles, partial/failed WriteBatch, read errors, slow and blocked " +
-		"senders, direct bfdSend.Send callers, optional sender holding a batch at shutdown; " +
+		"senders, direct bfdSend.Send callers, optional sender holding a batch at shutdown, optional " +
+		"Shutdown with overflowing processor queues, one packet per processor queue delivered after " +
+		"the stop (discarded by the processor / dropped by the slow path); " +
 		"non-trivial = buffers were returned by at least 3 different stages and at least one fault " +
 		"path (partial or failed write, or a queue-full/invalid drop) was taken"
 	rng := vgen.NewRand(run.Seed)
@@ -772,6 +822,12 @@ func main() {
 		}
 		if out.Stats["write_errors"] > 0 {
 			run.Tally("case-with-write-error")
+		}
+		if out.Stats["hot_stop"] > 0 {
+			run.Tally("case-stopped-with-full-processor-queues")
+		}
+		for k := int64(0); k < out.Stats["injected_after_stop"]; k++ {
+			run.Tally("packet-delivered-to-a-processor-queue-after-stop")
 		}
 		if out.Stats["retained_armed"] > 0 {
 			run.Tally("case-with-sender-holding-batch-at-shutdown")
